@@ -495,6 +495,25 @@ def opt_map(ctx, args, ci, dt):
     return ok(ctx.call_value(args[1], [o.fields[0].v]))
 
 
+def set_from_array(ctx, args, ci, dt):
+    """HashSet::from([a, b, ..]) / HashMap::from([(k, v), ..])"""
+    is_set = 'HashSet' in (ci.selfty or ci.raw)
+    m = MapV(is_set=is_set)
+    for c in ctx.elems_of(args[0]):
+        if is_set:
+            map_insert(ctx, m, c.v, UNIT)
+        else:
+            map_insert(ctx, m, c.v.fields[0].v, c.v.fields[1].v)
+    return m
+
+
+def opt_and_then(ctx, args, ci, dt):
+    o = args[0]
+    if o.variant == 0:
+        return o
+    return ctx.call_value(args[1], [o.fields[0].v])
+
+
 def opt_is_some_and(ctx, args, ci, dt):
     o = args[0]
     if o.variant == 0:
@@ -1800,6 +1819,8 @@ def install(ctx):
     M['Option::or'] = opt_or
     M['Option::map'] = opt_map
     M['Option::is_some_and'] = opt_is_some_and
+    M['Option::and_then'] = opt_and_then
+    M['Result::and_then'] = opt_and_then
     M['Option::is_none_or'] = opt_is_none_or
     M['Option::map_or'] = opt_map_or
     M['Result::unwrap'] = opt_unwrap
@@ -1829,6 +1850,8 @@ def install(ctx):
     M['String::len'] = str_len
     M['str::len'] = str_len
     M['<String as From>::from'] = str_to_string
+    M['<HashSet as From>::from'] = set_from_array
+    M['<HashMap as From>::from'] = set_from_array
     M['<str as ToString>::to_string'] = str_to_string
     M['<String as ToString>::to_string'] = str_to_string
     M['<str as ToOwned>::to_owned'] = str_to_string
